@@ -189,6 +189,49 @@ theorem c19_fd_flush_persists (s : St) (fd : Fd) (hatt : fd.att = true) (hdirty 
     (fun l a h => by cases l <;> simp [actSetFile] at h ⊢ <;> simp [L.view]) fd.path s.root () hok
   simpa [flushUp, hatt, hdirty, hup] using hget
 
+/-- **An operation landing in the propagation gap** (between a directory's local update and its call to the
+parent, schedule point `Directory.updateChildEntry:localDone`, at any depth `k`) gives exactly the results
+and the tree of the sequential composition "trigger, then intruder": the flushed content is in what the
+intruder moves, and a directory the intruder unlinked or moved away is not written back under its old
+name (the `unlinked` check comes after the gap). -/
+theorem c19_race_sequential (st : St) (k : Nat) (o intr : Op) :
+    (stepRace ⟨st, none⟩ k (.op o) intr).2.1 = (step false st o).2 ∧
+    (stepRace ⟨st, none⟩ k (.op o) intr).2.2 = (step false (step false st o).1 intr).2 ∧
+    (stepRace ⟨st, none⟩ k (.op o) intr).1.st.root.view =
+      (step false (step false st o).1 intr).1.root.view := by
+  -- the shape shared by the three operations whose propagation can be cut
+  have cut : ∀ (p : List Name) (act : L → R Out) (post : St → St),
+      (∀ s', (post s').root.view = s'.root.view) →
+      (step false st o).2 = (atPath p act st.root).res →
+      (step false st o).1.root.view = (atPath p act st.root).l.view →
+      let sr := splitRun k p act st.root
+      let r2 := stepD ⟨⟨sr.1.l, sr.1.up.getD st.pub⟩, none⟩ (.base intr)
+      sr.1.res = (step false st o).2 ∧ r2.2 = (step false (step false st o).1 intr).2 ∧
+      (post (resume r2.1.st sr.2)).root.view = (step false (step false st o).1 intr).1.root.view := by
+    intro p act post hpost h1 h2
+    have hs := splitRun_view k p act st.root
+    have hc := step_view_congr (s1 := ⟨(splitRun k p act st.root).1.l, (splitRun k p act st.root).1.up.getD st.pub⟩)
+      (s2 := (step false st o).1) (by simp [hs.2, h2]) intr
+    refine ⟨by rw [hs.1, h1], by simpa [stepD] using hc.1, ?_⟩
+    rw [hpost, resume_view]
+    simpa [stepD] using hc.2
+  cases o with
+  | write p off b sync =>
+    have := cut p (fun l => (actWrite sync (writeAt off b) l).out fun _ => .unit) id (fun _ => rfl)
+      (by rw [atPath_out]; simp [step, opR]) (by rw [atPath_out]; simp [step, opR, R.out])
+    simpa [stepRace, trigAct] using this
+  | trunc p size sync =>
+    have := cut p (fun l => (actWrite sync (truncTo size) l).out fun _ => .unit) id (fun _ => rfl)
+      (by rw [atPath_out]; simp [step, opR]) (by rw [atPath_out]; simp [step, opR, R.out])
+    simpa [stepRace, trigAct] using this
+  | flush p =>
+    have := cut p (fun l => (actFlush l).out fun _ => .unit)
+      (fun s' => if s'.root.cachedAt p then ⟨(atPath p actGetNode s'.root).l, s'.pub⟩ else s')
+      (fun s' => by split <;> simp [getNode_view])
+      (by rw [atPath_out]; simp [step, opR]) (by rw [atPath_out]; simp [step, opR, R.out])
+    simpa [stepRace, trigAct] using this
+  | _ => simp [stepRace, trigAct, stepD]
+
 /-- **The code as found violates the move property**: two different directories with the same name.
 `Mv /a/x/f /b/x/f` returns success and `/a/x/f` is still there (with the repaired comparison it is gone). -/
 def cexOps : List Op :=
